@@ -274,6 +274,7 @@ def run_latent(case):
     if fam in ("pau", "pafd"):                    # the flags the tfreq setter derives from the targets
         out["tflags"] = _try(lambda: {nm: numpy.asarray(getattr(ps, nm)).astype(int).tolist() for nm in ("tminor", "thet", "tmajor")})
     if fam in SUBSET_ONLY:
+        _lifecycle(case, out, ps, None, xs, None)
         return out
     cnt = _counts(n, s)
     a = float(case["a"])
@@ -300,7 +301,64 @@ def run_latent(case):
     out["ev_real2"] = _ev(pr, xi_f)
     out["evaluate_real"] = _evaluate(pr, [xr, xi_f])
     out["zero_real"] = _lat(pr, numpy.zeros(n))
+    _lifecycle(case, out, ps, pr, xs, xr)
     return out
+
+def _lifecycle(case, out, ps, pr, xs, xr):
+    """the same problem objects, after the calls above: (1) decision vectors and data arrays are left untouched by latentfn /
+    evalfn / evaluate; (2) new data assigned through the property setters -> the next call answers for the NEW data (flags
+    derived by a setter included); (3) a deep copy answers the same and shares no array with the original; (4) an in-place
+    update of a data array is seen by the next call; (5) the problem built on data scaled by 2^e (scale law)."""
+    import copy
+    fam, d, ev = case["fam"], case["data"], case["eval"]
+    if "data2" not in case: return
+    # (1)
+    def intact():
+        bad = []
+        if not numpy.array_equal(xs, numpy.array(case["s"], dtype=int)): bad.append("subset decision vector")
+        if xr is not None and not numpy.array_equal(xr, numpy.array(case["xr"], dtype=float)): bad.append("real decision vector")
+        for prob, tag in ((ps, "subset"), (pr, "real")):
+            if prob is None: continue
+            for a, v in _data_kwargs(fam, d).items():
+                if not numpy.array_equal(numpy.asarray(getattr(prob, SETTER.get(a, a))), numpy.asarray(v)): bad.append("%s problem's %s" % (tag, a))
+        return bad
+    out["mutated"] = _try(intact)
+    # (2)
+    d2 = case["data2"]
+    def assign(prob):
+        for a, v in _data_kwargs(fam, d2).items(): setattr(prob, SETTER.get(a, a), v)
+    out["sess_set"] = _try(lambda: (assign(ps), assign(pr) if pr is not None else None) and None)
+    out["sess_sub"] = _lat(ps, xs)
+    out["sess_nlatent"] = _try(lambda: int(ps.nlatent))
+    if fam in ("pau", "pafd"):
+        out["sess_tflags"] = _try(lambda: {nm: numpy.asarray(getattr(ps, nm)).astype(int).tolist() for nm in ("tminor", "thet", "tmajor")})
+    if pr is not None: out["sess_real"] = _lat(pr, xr)
+    # (3)
+    def cp():
+        pc = copy.deepcopy(ps)
+        r = _hx(pc.latentfn(xs))
+        a, _ = doubled_first(fam, d2)
+        arr = getattr(pc, SETTER.get(a, a)); arr *= 3
+        g = getattr(pc, "geno", None)
+        if g is not None: g[...] = 0
+        return r
+    out["copy_sub"] = _try(cp)
+    out["after_copy_mut"] = _lat(ps, xs)
+    # (4)
+    def inplace():
+        a, _ = doubled_first(fam, d2)
+        for prob in (ps, pr):
+            if prob is not None:
+                arr = getattr(prob, SETTER.get(a, a)); arr *= 2
+    out["inplace_set"] = _try(inplace)
+    out["inplace_sub"] = _lat(ps, xs)
+    if pr is not None: out["inplace_real"] = _lat(pr, xr)
+    # (5)
+    dsc = scaled_data(fam, d, case["sc"])
+    if dsc is not None:
+        k = len(case["s"])
+        out["sc_sub"] = _try(lambda: _hx(make_problem(fam, "Subset", dsc, max(k, 1), ev).latentfn(xs)))
+        if pr is not None: out["sc_real"] = _try(lambda: _hx(make_problem(fam, "Real", dsc, k, ev).latentfn(numpy.array(case["xr"], dtype=float))))
 
 # ------------------------------------------------------------------------------------------------ case generation
 def _dy(rng, lo=-64, hi=64, den=16):
@@ -333,7 +391,8 @@ def gen_data(rng, fam, n, t, ploidy=None):
         geno = [[{"fix0": 0, "fix1": ploidy, "one": ploidy, "poly": rng.randint(0, ploidy)}[kinds[j]] for j in range(p)] for _ in range(n)]
         for j in range(p):
             if kinds[j] == "one": geno[rng.randrange(n)][j] = ploidy - 1
-        tf = lambda: rng.choice([0.0, 1.0, 0.5, 0.25, rng.randint(1, 15) / 16])       # targets of exactly 0 / 1 are ordinary cases
+        # targets of exactly 0 / 1 are ordinary cases; 2^-40 and 1 - 2^-40 sit next to them (a tolerance instead of the exact test must show)
+        tf = lambda: rng.choice([0.0, 1.0, 0.5, 0.25, rng.randint(1, 15) / 16, 0.0, 1.0, 2.0 ** -40, 1.0 - 2.0 ** -40])
         return {"geno": geno, "ploidy": ploidy, "mkrwt": [[rng.randint(0, 32) / 8 for _ in range(t)] for _ in range(p)],
                 "tfreq": [[tf() for _ in range(t)] for _ in range(p)]}
     if fam in ("opv", "gb"):
@@ -342,6 +401,52 @@ def gen_data(rng, fam, n, t, ploidy=None):
         if fam == "gb": d["nbestfndr"] = 1
         return d
     raise ValueError(fam)
+
+SETTER = {"wgebv": "gwgebv"}            # constructor keyword -> property name where they differ
+
+def gen_data2(rng, fam, d):
+    """fresh data of exactly the shapes of d (assigned through the property setters of a problem that has already been used)"""
+    n = _ncand(fam, d)
+    if fam in LINEAR:
+        a = FAMILIES[fam][2][0]; return {a: _mat(rng, n, len(d[a][0]))}
+    if fam == "ocs": return {"ebv": _mat(rng, n, len(d["ebv"][0])), "C": _triu(rng, n)}
+    if fam in ("mgr", "meh"): return {"C": _triu(rng, n)}
+    if fam == "l2": return {"C": [_triu(rng, n) for _ in d["C"]]}
+    if fam == "l1": return {"V": [[[_dy(rng) for _ in range(n)] for _ in V] for V in d["V"]]}
+    if fam == "fam":
+        ids = list(d["familyid"]); rng.shuffle(ids)
+        return {"ebv": _mat(rng, n, len(d["ebv"][0])), "familyid": ids}
+    if fam in ("pafd", "pau", "mogs"):
+        p, t = len(d["mkrwt"]), len(d["mkrwt"][0])
+        tf = lambda: rng.choice([0.0, 1.0, 0.5, 0.75, rng.randint(1, 15) / 16])
+        return {"geno": d["geno"][1:] + d["geno"][:1], "ploidy": d["ploidy"], "mkrwt": [[rng.randint(0, 32) / 8 for _ in range(t)] for _ in range(p)],
+                "tfreq": [[tf() for _ in range(t)] for _ in range(p)]}
+    if fam in ("opv", "gb"):
+        H = d["haplomat"]
+        d2 = {"haplomat": [[[[_dy(rng) for _ in blk] for blk in tx] for tx in ph] for ph in H]}
+        if fam == "gb": d2["nbestfndr"] = d["nbestfndr"]
+        return d2
+    raise ValueError(fam)
+
+def _mapf(f, a):
+    return [_mapf(f, v) for v in a] if isinstance(a, list) else f(a)
+
+# scale law: which data arrays are multiplied by 2^e, and which latent components then scale by 2^e (exactly, in binary64)
+SCALED_ARGS = {"ocs": ["ebv", "C"], "mgr": ["C"], "l2": ["C"], "l1": ["V"], "fam": ["ebv"], "pafd": ["mkrwt"], "pau": ["mkrwt"], "mogs": ["mkrwt"],
+               "opv": ["haplomat"], "gb": ["haplomat"]}
+def scaled_data(fam, d, e):
+    if fam == "meh": return None                      # -(1 - norm) is not homogeneous
+    args = SCALED_ARGS.get(fam) or [FAMILIES[fam][2][0]]
+    return {k: (_mapf(lambda v: v * 2.0 ** e, v) if k in args else v) for k, v in d.items()}
+def scaled_components(fam, d):
+    """indices of the latent vector that are homogeneous of degree one in the scaled arrays"""
+    nl = nlatent_of(fam, d)
+    return list(range(len(d["ebv"][0]))) if fam == "fam" else list(range(nl))
+
+def doubled_first(fam, d):
+    """the data after the in-place update  first float array *= 2  (allele-frequency families: mkrwt)"""
+    a = "mkrwt" if fam in ("pafd", "pau", "mogs") else FAMILIES[fam][2][0]
+    return a, {k: (_mapf(lambda v: v * 2.0, v) if k == a else v) for k, v in d.items()}
 
 TRANS_KINDS = ["none", "id", "empty", "sum", "dot", "decnsum", "mix"]
 def gen_eval(rng, nlat):
@@ -399,6 +504,9 @@ def gen_latent(rng, fam, mode="rand"):
     xi = [rng.choice([0, 0, 1, 1, 2, 3]) for _ in range(n)]
     if rng.random() < 0.85 and sum(xi) == 0: xi[rng.randrange(n)] = 1
     c = {"kind": "latent", "fam": fam, "data": d, "s": s, "perm": perm, "a": a, "xr": xr, "xi": xi, "eval": gen_eval(rng, nlatent_of(fam, d))}
+    if n <= 12:                 # lifecycle / scale dimensions (kept off the 49..107-candidate cases, whose point is the frequency rounding)
+        c["data2"] = gen_data2(rng, fam, d)
+        c["sc"] = rng.choice([-40, -20, 12, 20])
     return c
 
 def gen_guard(rng, fam, which=None):
@@ -506,6 +614,42 @@ def _evalfn_ok(ev, x, lat, got):
         if gl is None or len(gl) != len(want) or not all(_close(a, b) for a, b in zip(gl, want)): return False
     return True
 
+def _pred_lifecycle(case, out, c, sub):
+    if "data2" not in case: return []
+    bad = []
+    fam, d, d2, s = case["fam"], case["data"], case["data2"], case["s"]
+    n = _ncand(fam, d)
+    dup = max(_counts(n, s) + [0]) > 1
+    if out["mutated"]: bad.append("latentfn / evalfn / evaluate modified their inputs in place: %s" % ", ".join(out["mutated"]))
+    sub_ok = not (fam == "fam" and dup)
+    want2 = defn(fam, d2, c, s)
+    if sub_ok and not _match(_frl(out["sess_sub"]), want2): bad.append("after new data were assigned through the setters, the subset latent vector != definition on the NEW data (family %s)" % fam)
+    if out["sess_nlatent"] != len(out["sess_sub"]): bad.append("nlatent after the setters")
+    if "sess_tflags" in out:
+        for nm, test in (("tminor", lambda v: v == 0), ("thet", lambda v: 0 < v < 1), ("tmajor", lambda v: v == 1)):
+            if out["sess_tflags"][nm] != [[int(test(v)) for v in r] for r in d2["tfreq"]]: bad.append("%s flags after the tfreq setter != their definition on the new targets" % nm)
+    xr = [F(v) for v in case["xr"]]; tot = sum(xr)
+    if "sess_real" in out and tot > 0 and not (fam in GUARDED and tot < F(EPS)):
+        cw = [v / tot for v in xr]; mem = [i for i in range(n) if xr[i] > 0]
+        if not _match(_frl(out["sess_real"]), defn(fam, d2, cw, mem)): bad.append("after new data were assigned through the setters, the real latent vector != definition on the NEW data")
+    if out["copy_sub"] != out["sess_sub"]: bad.append("a deep copy of the problem gives a different latent vector")
+    if out["after_copy_mut"] != out["sess_sub"]: bad.append("modifying the arrays of a deep copy changed the original problem's latent vector (shared arrays)")
+    a, d3 = doubled_first(fam, d2)
+    if sub_ok and not _match(_frl(out["inplace_sub"]), defn(fam, d3, c, s)): bad.append("after an in-place update of %s the subset latent vector != definition on the updated data (stale state)" % a)
+    if "inplace_real" in out and tot > 0 and not (fam in GUARDED and tot < F(EPS)):
+        if not _match(_frl(out["inplace_real"]), defn(fam, d3, cw, mem)): bad.append("after an in-place update of %s the real latent vector != definition on the updated data (stale state)" % a)
+    if "sc_sub" in out:
+        sc = F(2) ** case["sc"]; comps = scaled_components(fam, d)
+        for key, base in (("sc_sub", out["sub"]), ("sc_real", out.get("xr"))):
+            if key not in out or base is None: continue
+            g, b = _frl(out[key]), _frl(base)
+            if g is None or b is None:
+                if not (g is None and b is None): bad.append("%s: data scaled by 2^%d gives no value" % (key, case["sc"]))
+                continue
+            if len(g) != len(b) or any(g[i] != sc * b[i] for i in comps) or any(g[i] != b[i] for i in range(len(b)) if i not in comps):
+                bad.append("scale law: data * 2^%d must give exactly 2^%d * latent vector (%s)" % (case["sc"], case["sc"], key))
+    return bad
+
 def pred_latent(case, out):
     bad = []
     fam, d, s, ev = case["fam"], case["data"], case["s"], case["eval"]
@@ -544,8 +688,9 @@ def pred_latent(case, out):
             if have is None or len(have) != len(exps): bad.append("%s[%s] has wrong shape" % (key, nm)); continue
             for h, e in zip(have, exps):
                 if not _closel(_frl(h), _frl(e[ix])): bad.append("%s[%s] row != evalfn of that row" % (key, nm))
+    bad += _pred_lifecycle(case, out, c, sub)
     if fam in SUBSET_ONLY:
-        return bad
+        return bad[:8]
     guarded = fam in GUARDED
     # ---- encodings of the same contributions
     for key in ("int", "bin", "binb", "real", "real_a"):
@@ -646,6 +791,19 @@ def emit_latent(case, out):
     if "tflags" in out:
         for nm, fn in (("tminor", "t_minor"), ("thet", "t_het"), ("tmajor", "t_major")):
             parts.append("list_eqb bl_eqb %s (map (map %s) %s)" % (E.lst2([[bool(v) for v in r] for r in out["tflags"][nm]], E.b), fn, _ql2(d["tfreq"])))
+    if "data2" in case and not any(isinstance(out.get(k_), dict) for k_ in ("sess_set", "inplace_set", "mutated")):
+        d2 = case["data2"]; a3, d3 = doubled_first(fam, d2)
+        parts.append("(let fd := %s in agree %s %s (latent n fd %s) && Nat.eqb %s (nlatent_of fd))" % (emit_fdata(fam, d2), ex_sub, _oimpl(out["sess_sub"]), sub, E.nat(out["sess_nlatent"])))
+        parts.append("(let fd := %s in agree %s %s (latent n fd %s))" % (emit_fdata(fam, d3), ex_sub, _oimpl(out["inplace_sub"]), sub))
+        if "sess_tflags" in out:
+            for nm, fn in (("tminor", "t_minor"), ("thet", "t_het"), ("tmajor", "t_major")):
+                parts.append("list_eqb bl_eqb %s (map (map %s) %s)" % (E.lst2([[bool(v) for v in r] for r in out["sess_tflags"][nm]], E.b), fn, _ql2(d2["tfreq"])))
+        if "sess_real" in out:
+            parts.append("(let fd := %s in agree false %s (latent n fd (DVec %s)))" % (emit_fdata(fam, d2), _oimpl(out["sess_real"]), _ql(case["xr"])))
+            parts.append("(let fd := %s in agree false %s (latent n fd (DVec %s)))" % (emit_fdata(fam, d3), _oimpl(out["inplace_real"]), _ql(case["xr"])))
+        dsc = scaled_data(fam, d, case["sc"])
+        if dsc is not None:
+            parts.append("(let fd := %s in agree %s %s (latent n fd %s))" % (emit_fdata(fam, dsc), ex_sub, _oimpl(out["sc_sub"]), sub))
     if fam not in SUBSET_ONLY:
         a = case["a"]
         vec = lambda x: "(DVec %s)" % _ql(x)
@@ -693,7 +851,19 @@ def gen_pop(rng, homozygous=False, n=None):
             "u": u, "beta": [_dy(rng) for _ in range(t)],
             "bv": {"mat": _mat(rng, n, t), "location": [_dy(rng) for _ in range(t)], "scale": [rng.choice([1.0, 0.5, 2.0, 1.5]) for _ in range(t)]}}
 
-FACTORIES = ["ebv", "gebv_bvmat", "gebv_gmat", "gwgebv", "wgs", "ocs", "mgr", "meh", "l2", "l2w", "l1", "fam", "uc", "uc_xmap", "ohv", "opv", "gb",
+# factory classmethods (from_*) of every family that the factory cases drive; the enumeration case fails on any from_* method of a
+# concrete class that is neither listed here nor skipped with a reason
+FACTORY_METHODS = {
+    "ebv": {"from_bvmat"}, "gebv": {"from_bvmat", "from_gmat_gpmod"}, "gwgebv": {"from_gmat_algpmod", "from_numpy"}, "wgs": {"from_gmat_algpmod", "from_numpy"},
+    "embv": {"from_pgmat_gpmod"}, "rand": {"from_object"}, "uc": {"from_pgmat_gpmod", "from_pgmat_gpmod_xmap"}, "ohv": {"from_pgmat_gpmod"},
+    "ocs": {"from_bvmat_gmat"}, "mgr": {"from_gmat"}, "meh": {"from_gmat"}, "l2": {"from_gmat"}, "l1": {"from_numpy"}, "fam": {"from_bvmat"},
+    "pafd": {"from_gmat_gpmod"}, "pau": {"from_gmat_gpmod"}, "mogs": {"from_gmat_gpmod"}, "opv": {"from_pgmat_gpmod"}, "gb": {"from_pgmat_gpmod"},
+}
+FACTORY_SKIPPED = {
+    ("MultiObjectiveGenomicSubsetMatingProblem", "from_object"): "the class is an explicit stub (latentfn raises unconditionally; see SKIPPED)",
+}
+
+FACTORIES = ["gwgebv_np", "wgs_np", "ebv", "gebv_bvmat", "gebv_gmat", "gwgebv", "wgs", "ocs", "mgr", "meh", "l2", "l2w", "l1", "fam", "uc", "uc_xmap", "ohv", "opv", "gb",
              "pafd", "pau", "mogs", "embv", "rand", "wgebvmat", "embvmat"]
 
 def _distinct_bv(pop):
@@ -732,7 +902,7 @@ def gen_factory(rng, which, vf=None, form=None):
         pop = best[1]
     n, p, t = len(pop["labels"]), len(pop["chrgrp"]), len(pop["beta"])
     args = {"unscale": rng.random() < 0.5, "phased": rng.random() < 0.5}
-    if which == "gwgebv": args["alpha"] = rng.choice([0.0, 1.0, 2.0, 0.5])
+    if which in ("gwgebv", "gwgebv_np"): args["alpha"] = rng.choice([0.0, 1.0, 2.0, 0.5])
     if which in ("uc", "uc_xmap", "ohv"):
         args.update(nparent=2, unique=rng.random() < 0.5, nprogeny=rng.choice([5, 10]), pct=rng.choice([0.1, 0.25, 0.5]))
     if which in ("uc", "uc_xmap"):
@@ -806,7 +976,7 @@ def run_factory(case):
     which, pop, A = case["which"], case["pop"], case["args"]
     n, p, t = len(pop["labels"]), len(pop["chrgrp"]), len(pop["beta"])
     out = {}
-    fam = {"gebv_bvmat": "gebv", "gebv_gmat": "gebv", "uc_xmap": "uc", "l2w": "l2"}.get(which, which)
+    fam = {"gebv_bvmat": "gebv", "gebv_gmat": "gebv", "uc_xmap": "uc", "l2w": "l2", "gwgebv_np": "gwgebv", "wgs_np": "wgs"}.get(which, which)
     if which == "wgebvmat":
         from pybrops.model.wgebvmat.DenseWeightedGenomicEstimatedBreedingValueMatrix import DenseWeightedGenomicEstimatedBreedingValueMatrix as W
         g, gmod, bv = build_pop(pop, A["phased"])
@@ -849,6 +1019,12 @@ def run_factory(case):
                     pr = cls.from_gmat_algpmod(g, gmod, A["alpha"], **_space(enc, n)); return {"gwgebv": _arr(pr.gwgebv)}
                 if which == "wgs":
                     pr = cls.from_gmat_algpmod(g, gmod, **_space(enc, n)); return {"gwgebv": _arr(pr.gwgebv)}
+                if which in ("gwgebv_np", "wgs_np"):
+                    # the arrays are handed over by the harness: genotypes in {0,1,2} coding, effects, favourable-allele frequencies
+                    X, u, beta, gebv, f = pop_truth(pop)
+                    if which == "gwgebv_np": pr = cls.from_numpy(X.copy(), u.copy(), f.copy(), A["alpha"], **_space(enc, n))
+                    else: pr = cls.from_numpy(X.copy(), u.copy(), f.copy(), **_space(enc, n))
+                    return {"gwgebv": _arr(pr.gwgebv)}
                 if which in ("ocs", "mgr", "meh", "l2"):
                     from pybrops.popgen.cmat.fcty.DenseMolecularCoancestryMatrixFactory import DenseMolecularCoancestryMatrixFactory
                     fc = DenseMolecularCoancestryMatrixFactory()
@@ -1044,8 +1220,8 @@ def pred_factory(case, out):
         if which == "ebv": chk("ebv", bvu if A["unscale"] else bvm, "breeding values")
         elif which == "gebv_bvmat": chk("gebv", bvu if A["unscale"] else bvm, "breeding values")
         elif which == "gebv_gmat": chk("gebv", gebv if A["unscale"] else std(gebv), "genomic breeding values", 2.0 ** -26)
-        elif which == "gwgebv": chk("gwgebv", X @ (u * numpy.power(fg, -A["alpha"])), "generalised weighted breeding values")
-        elif which == "wgs": chk("gwgebv", X @ (u * numpy.power(fg, -0.5)), "weighted breeding values")
+        elif which in ("gwgebv", "gwgebv_np"): chk("gwgebv", X @ (u * numpy.power(fg, -A["alpha"])), "generalised weighted breeding values")
+        elif which in ("wgs", "wgs_np"): chk("gwgebv", X @ (u * numpy.power(fg, -0.5)), "weighted breeding values")
         elif which == "ocs":
             chk("ebv", bvu if A["unscale"] else bvm, "breeding values"); chk_factor(o["C"], "C")
         elif which in ("mgr", "meh"): chk_factor(o["C"], "C")
@@ -1124,7 +1300,7 @@ def _qh(a):
 def emit_factory(case, out):
     """factory data evaluated in Coq for the factories with an exact-rational definition"""
     which, pop, A = case["which"], case["pop"], case["args"]
-    if which not in ("gebv_gmat", "gwgebv", "ohv", "opv", "gb", "l1", "uc", "uc_xmap", "pafd", "pau", "mogs", "embv", "embvmat"): return None
+    if which not in ("gebv_gmat", "gwgebv", "ohv", "opv", "gb", "l1", "uc", "uc_xmap", "pafd", "pau", "mogs", "embv", "embvmat", "gwgebv_np"): return None
     if any(isinstance(o, dict) and ("exc" in o or o.get("skip")) for o in out.values()): return None
     n, p, t = len(pop["labels"]), len(pop["chrgrp"]), len(pop["beta"])
     hap = E.lst3(pop["hap"], E.z); u = _ql2(pop["u"]); beta = _ql(pop["beta"])
@@ -1152,7 +1328,7 @@ def emit_factory(case, out):
                 if npar == 2: parts.append("list_eqb natl_eqb %s (if %s then pairs_unique %d else pairs_any %d)" % (E.lst2(o["xmap"], E.nat), E.b(A["unique"]), n, n))
             if A.get("homozygous") and (which == "embvmat" or A.get("prot", "SelfCross") == "SelfCross"):
                 parts.append("qclose_ll %s (gebv_def hap u %s %d %d %d)" % (_qh(o[key]), beta, n, p, t))
-    elif which == "gwgebv":
+    elif which in ("gwgebv", "gwgebv_np"):
         if A["alpha"] not in (0.0, 1.0, 2.0): return None
         head += "let g := gwgebv_def hap u %d %d %d %d in\n  " % (int(A["alpha"]), n, p, t)
         parts = ["qclose_ll %s g" % _qh(o["gwgebv"]) for o in out.values()]
@@ -1198,7 +1374,13 @@ def emit_factory(case, out):
 def run_special(case):
     k = case["kind"]
     if k == "classes":
-        return {"concrete": enumerate_concrete()}
+        import importlib
+        have = enumerate_concrete()
+        fm = {}
+        for nme, mod in have.items():
+            cls = getattr(importlib.import_module(mod), nme)
+            fm[nme] = sorted(a for a in dir(cls) if a.startswith("from_") and callable(getattr(cls, a)))
+        return {"concrete": have, "factories": fm}
     if k == "stub":
         import importlib
         cls = getattr(importlib.import_module(P + "MultiObjectiveGenomicMatingProblem"), "MultiObjectiveGenomicSubsetMatingProblem")
@@ -1244,6 +1426,13 @@ def pred_special(case, out):
             elif nme in mapped and mapped[nme] != mod: bad.append("class %s found in %s, expected %s" % (nme, mod, mapped[nme]))
         for nme in list(mapped) + list(SKIPPED):
             if nme not in have: bad.append("class %s of the family table no longer exists as a concrete class" % nme)
+        famof = {c: fam for fam in FAMILIES for (m, c) in family_classes(fam).values()}
+        for nme, methods in sorted(out.get("factories", {}).items()):
+            driven = FACTORY_METHODS.get(famof.get(nme), set())
+            for m in methods:
+                if m not in driven and (nme, m) not in FACTORY_SKIPPED: bad.append("factory method %s.%s is neither driven by the factory cases nor skipped with a reason" % (nme, m))
+            for m in driven:
+                if m not in methods: bad.append("factory method %s.%s of the harness table no longer exists" % (nme, m))
         return bad[:8]
     if k == "vmatfcty":
         bad = []
